@@ -37,6 +37,21 @@ def generate(tier, seed):
                 ad = adapter_X(ad, script)
             cases.append(case("eng", sp, ad, "-", steps))
             dist["sync_histories"] += 1
+    # a call naming a policy type of the OTHER section (add_named_policy("g", ..), add_named_grouping_policy("p", ..)): the model
+    # rejects it; whatever the adapter made of the call, a reload must not turn it into a rule of that other section
+    dist["cross_section_types"] = 0
+    for dom in (False, True):
+        d = prio_dom_kind() if dom else prio_kind()
+        sp = spec_of(d)
+        pr, gr = p_rules(dom), g_rules(dom)
+        cross = [A("p", "g", gr[2]), A("g", "p", pr[3]), AM("p", "g", [gr[2], gr[3]]), R("p", "g", gr[0]), R("g", "p", pr[0]),
+                 RF("p", "g", 0, [gr[0][0]]), A("p", "g", pr[3])]
+        tail = ["?ga:p", "?ga:g", "?rv"] + observe_steps(dom)[2:]
+        for o in cross:
+            for o2 in [None, "LD", A("g", "g", gr[3]), "SV"]:
+                steps = list(tail) + [o] + tail + ([o2] + tail if o2 else [])
+                cases.append(case("eng", sp, adapter_M(initial_lines(random.Random(len(cases)), dom, True)), "-", steps))
+                dist["cross_section_types"] += 1
     # two policy types per section sharing names (a filtered removal on one type must not touch the sibling's lines)
     sp = multi_spec()
     al = multi_alphabet()
